@@ -376,8 +376,9 @@ def judge_kind(o, u, ok, exp_own, osig, tail, R, X):
 
 def run_kind_case(r, variants, cache, log_call, out, detail=False):
     _, sig, (np_, kws, meth), (given, ianames, ir, at, fx, bare), Bw, reasons, dev, obs, tail, tk, osig, innerw = r
-    if meth or given or dev != ["-"] or obs[0]["e"] == "raise":
+    if meth or dev != ["-"]:
         raise ValueError("target kind %s outside its domain: %r" % (tk, r))
+    refused = obs[0]["e"] == "raise"
     ok = bool(Bw)
     b = Bw[0] if ok else None
     fkey = (json.dumps(sig), tk)
@@ -389,9 +390,11 @@ def run_kind_case(r, variants, cache, log_call, out, detail=False):
         cache["f"] = (raw, w, src + wsrc)
         cache["deco"] = {}
     raw, w, src = cache["f"]
-    okey = (ir, at, bare)
+    okey = (given, tuple(sorted(ianames)), ir, at, bare)
     if okey not in cache["deco"]:
         kwargs = {}
+        if given:
+            kwargs["include_args"] = sorted(ianames)
         if not ir:
             kwargs["include_result"] = False
         if at:
@@ -418,6 +421,13 @@ def run_kind_case(r, variants, cache, log_call, out, detail=False):
             "decorator": "log_call" if bare else "log_call(%s)" % ", ".join("%s=%r" % kv for kv in sorted(kwargs.items())),
             "expected_binding": b if ok else "TypeError " + ",".join(reasons)}
     results = []
+    if refused:
+        # include_args names something that is not a parameter of the callable log_call is given (e.g. only of the function underneath)
+        if not isinstance(derr, ValueError):
+            results.append(("violation", ["include_args-naming-a-non-parameter-raises-ValueError"],
+                            {"decoration": "accepted" if derr is None else repr(derr)}))
+        out["runs"] += 1
+        return base, results
     if derr is not None:
         results.append(("violation", ["decoration-succeeds"], {"decoration": repr(derr)}))
         return base, results
